@@ -35,8 +35,8 @@ theorem SInv.of_rel {st : St} (inv : SInv gh st) {t' : Tree} (hinv : TInv t') (h
     exact inv.term_held hf (by rcases h with h | h; exact .inl ((live_iff 0).1 h); simp at h)
   · intro hf h
     exact inv.term_free hf (by rintro (h' | h'); exact h (.inl ((live_iff 0).2 h')); simp at h')
-  · intro hf h
-    exact inv.term_dead hf (by rcases h with h | h; exact .inl ((live_iff 0).1 h); simp at h)
+  · intro hf
+    refine ⟨fun h => (inv.term_dead hf).1 (by rcases h with h | h; exact .inl ((live_iff 0).1 h); simp at h), (inv.term_dead hf).2⟩
 
 /-- `tickit_window_set_geometry`. -/
 theorem setGeomT_ok {t : Tree} (inv : TInv t) {win : Nat} {ww : Win} (hw : LiveW t win ww) (g : Rect) :
@@ -464,8 +464,8 @@ theorem newWin_ok {st : St} (inv : SInv gh st) {p : Nat} {pw : Win} (hp : LiveW 
     exact inv.term_held hf (by rcases h with h | h; exact .inl (live0.1 h); simp at h)
   · intro hf h
     exact inv.term_free hf (by rintro (h' | h'); exact h (.inl (live0.2 h')); simp at h')
-  · intro hf h
-    exact inv.term_dead hf (by rcases h with h | h; exact .inl (live0.1 h); simp at h)
+  · intro hf
+    refine ⟨fun h => (inv.term_dead hf).1 (by rcases h with h | h; exact .inl (live0.1 h); simp at h), (inv.term_dead hf).2⟩
 
 end Tickit.Life
 
@@ -516,8 +516,8 @@ theorem SInvB.of_tree {st : St} (inv : SInvB gh st []) {t' : Tree} (hinv : TInv 
     exact inv.term_held hf (by rcases h with h | h; exact .inl ((live_iff 0).1 h); simp at h)
   · intro hf h
     exact inv.term_free hf (by rintro (h' | h'); exact h (.inl ((live_iff 0).2 h')); simp at h')
-  · intro hf h
-    exact inv.term_dead hf (by rcases h with h | h; exact .inl ((live_iff 0).1 h); simp at h)
+  · intro hf
+    refine ⟨fun h => (inv.term_dead hf).1 (by rcases h with h | h; exact .inl ((live_iff 0).1 h); simp at h), (inv.term_dead hf).2⟩
 
 /-- A new tree of the same size in which every window keeps `freed` and (if live) its count. -/
 theorem SInv.of_tree {st : St} (inv : SInv gh st) {t' : Tree} (hinv : TInv t') (hsz : t'.wins.size = st.tree.wins.size)
